@@ -20,7 +20,7 @@ def make_route(e, shared=None):
     ms = e['methods']
     if ms is not None:
         # any collection a caller may hand over (an empty one means "no restriction", like None)
-        ms = {'list': list, 'tuple': tuple, 'set': set, 'frozenset': frozenset, 'iter': iter, 'dictkeys': lambda m: dict.fromkeys(m).keys()}[e.get('mform', 'list')](ms)
+        ms = {'list': list, 'tuple': tuple, 'set': set, 'frozenset': frozenset, 'iter': iter, 'gen': lambda m: (x for x in m), 'map': lambda m: map(str, m), 'dictkeys': lambda m: dict.fromkeys(m).keys()}[e.get('mform', 'list')](ms)
     return Route(e['pattern'], R.make_endpoint(e['tag'], e['out'], shared), methods=ms)
 
 
@@ -31,7 +31,7 @@ class C06(Check):
     design_ref = 'DESIGN.md 3.3'
     runs = {'quick': 800, 'thorough': 10000}
     shrink_lists = (('ops',), ('config', 'ctor'))
-    hashseeds = {'quick': [1], 'thorough': [1, 2]}
+    hashseeds = {'quick': ['1:O'], 'thorough': ['1:O', 2]}
     rule = ('routing tables of up to 6 routes from a catalogue of overlapping/disjoint patterns (match relation known by '
             'construction), method sets (none/one/several/lower-case), route outcomes (answer, breaking 4xx/5xx raised/returned, '
             'non-breaking 403/404 raised/returned, uncaught exception); built by constructor list and by add(entry, index) '
@@ -53,7 +53,7 @@ class C06(Check):
     def gen_entry(self, rng, mode, k):
         pats = R.STRICT_OK if mode == 'strict' else sorted(R.CAT)
         return {'pattern': rng.choice(pats), 'methods': rng.choice(R.METHOD_SETS),
-                'mform': rng.choice(['list', 'list', 'tuple', 'set', 'frozenset', 'dictkeys']),
+                'mform': rng.choice(['list', 'list', 'tuple', 'set', 'frozenset', 'dictkeys', 'iter', 'gen', 'map']),
                 'out': rng.choice(R.OUTCOMES + ['nbS403', 'nbS403', 'nbS404']), 'tag': 'r%d' % k}
 
     def generate(self, seed, tier):
